@@ -47,7 +47,7 @@ UNITS = [
     # results under arbitrary static state: tagged hash (seeded defect C20-1)
     U("C20.tagged_sha256", ["C20"], "harness/C20/tagged.c", "h_tagged_sha256", unwind=70, timeout=900, min_obl=6,
       functions=["secp256k1_tagged_sha256", "secp256k1_sha256_initialize_tagged", "secp256k1_sha256_write", "secp256k1_sha256_finalize"],
-      bounded="tag <= 20 bytes, message <= 40 bytes",
+      bounded="tag length 13, message length 32 (contents arbitrary)",
       note="behavioural: f(tag,msg) ; f(other) ; f(tag,msg) give equal digests under arbitrary initial statics; compression function uninterpreted; nothing about the internal structure is pinned"),
     U("C20.static_facts", ["C20"], "engine/static_facts.py", "script", script=["python3", "$VERIF/engine/static_facts.py", "--repo", "$REPO"], timeout=600,
       functions=["(every function of the library TU: symbol table and goto program scan)"],
